@@ -440,7 +440,9 @@ class Desk:
         self.stats["f4_checked"] += 1
         dev = np.abs(x[fixed] - x_ref[:n][fixed])
         # the peer honours l == u only to its own tolerance, which is relative to the scale of the whole problem
-        tol = X_TOL * (1 + np.abs(x_ref[:n][fixed])) + 1e-7 * (1 + float(np.abs(x).max(initial=0)))
+        # (simplex / branch-and-bound back-ends: 1e-6; the interior-point default CLARABEL ends around 1e-5 on l == u)
+        loose = 20.0 if (plan["solver"] or "CLARABEL").upper() in ("CLARABEL", "SCS", "OSQP") and not plan["cfg"].get("mip") else 1.0
+        tol = loose * (X_TOL * (1 + np.abs(x_ref[:n][fixed])) + 1e-7 * (1 + float(np.abs(x).max(initial=0))))
         if dev.size and (dev > tol).any():
             j = int(np.where(fixed)[0][int(np.argmax(dev - tol))])
             self.viol("F4-window-variable-moved", k, "variable %d (%s): new value %r, previous %r" % (j, describe_var(m, j), x[j], x_ref[j]),
